@@ -36,6 +36,11 @@ type held[T signal.SignalTypes] struct {
 	hs       hist
 	handle   int
 	pool     int
+	// shadow is a freshly allocated buffer that receives exactly the same
+	// operations: "indistinguishable from a freshly allocated one" also means
+	// that the obtained buffer goes on BEHAVING like one (state that no accessor
+	// shows would surface as a difference later).
+	shadow *signal.Buffer[T]
 }
 
 // C10: a single caller; histories of get/use/put on one pool with several
@@ -167,9 +172,13 @@ func (h *H[T]) C10(rc *runCtx) *Violation {
 			}
 			after := snapshotFull(o.cur)
 			if at, ok := sameSnap(snaps[i], after); !ok {
+				who := 0 // (0: the call is a Get, there is no buffer yet)
+				if hb != nil {
+					who = hb.serial
+				}
 				return violf("shared-storage",
 					"%s on outstanding buffer #%d changed outstanding buffer #%d at full-capacity position %d: buffers checked out at the same time share storage",
-					what, hb.serial, o.serial, at)
+					what, who, o.serial, at)
 			}
 		}
 		return nil
@@ -183,7 +192,11 @@ func (h *H[T]) C10(rc *runCtx) *Violation {
 			pool = 1
 		}
 		availBefore := sim.Available()
-		b, pv := get(pool, handle)
+		var b *signal.Buffer[T]
+		var pv any
+		if v := crosstalk(nil, "Get", func() { b, pv = get(pool, handle) }); v != nil {
+			return v // handing out one buffer must not touch the ones that are checked out
+		}
 		rc.ops++
 		if pv != nil {
 			return violf("get-panic", "Get panicked: %v", pv)
@@ -195,6 +208,9 @@ func (h *H[T]) C10(rc *runCtx) *Violation {
 		}
 		serial++
 		hb := &held[T]{hdr: b, cur: b, serial: serial, handle: handle, pool: pool}
+		if !marathon && as[pool].Channels*as[pool].Capacity <= 4096 {
+			hb.shadow = signal.Alloc[T](as[pool])
+		}
 		id := sim.ObjID(unsafe.Pointer(b))
 		sim.Mix(0x9000 | uint64(id)<<16)
 		sim.Tracef("op: pool %d Get via handle %d -> buffer #%d (obj#%d)", pool, handle, serial, id)
@@ -247,6 +263,12 @@ func (h *H[T]) C10(rc *runCtx) *Violation {
 				f := fullView(hb.cur)
 				for i := 0; i < f.Len(); i++ {
 					f.SetSample(i, nonzero[T](uint64(serial)*1000003+uint64(i)))
+				}
+				if hb.shadow != nil {
+					sf := fullView(hb.shadow)
+					for i := 0; i < sf.Len(); i++ {
+						sf.SetSample(i, nonzero[T](uint64(serial)*1000003+uint64(i)))
+					}
 				}
 				if f.Len() > hb.cur.Len() {
 					hb.hs.dirtBeyond = true
@@ -347,12 +369,16 @@ func (h *H[T]) C10(rc *runCtx) *Violation {
 				}
 				sim.Mix(0xc000 | uint64(u.kind))
 				grewBefore := hb.hs.grew
+				panicked := false
 				v := crosstalk(hb, useNames[u.kind], func() {
-					h.applyUse(&hb.cur, u, peer, &hb.hs, nil, func(format string, args ...any) {
+					panicked = h.applyUse(&hb.cur, u, peer, &hb.hs, nil, func(format string, args ...any) {
 						sim.Tracef("op: use #%d: "+format, append([]any{hb.serial}, args...)...)
 					})
 				})
 				rc.ops++
+				if v == nil && hb.shadow != nil {
+					v = h.shadowStep(hb, u, peer, panicked)
+				}
 				rc.tally("use_op", useNames[u.kind])
 				if hb.hs.grew && !grewBefore {
 					rc.probes[pGrownAppend]++
@@ -389,4 +415,32 @@ func (h *H[T]) C10(rc *runCtx) *Violation {
 	sim.Go("caller", func(*simrt.Task) { result = body() })
 	sim.Run(2 * cont)
 	return result
+}
+
+// shadowStep applies the use operation that was just applied to the obtained
+// buffer to its freshly allocated shadow as well and compares everything that
+// can be observed. The reference is the library itself (a fresh Alloc put
+// through the same calls), not a model of what the calls should do.
+func (h *H[T]) shadowStep(hb *held[T], u useOp, peer *signal.Buffer[T], panicked bool) *Violation {
+	var shs hist
+	if peer == hb.cur {
+		peer = hb.shadow
+	}
+	spanicked := h.applyUse(&hb.shadow, u, peer, &shs, nil, nil)
+	if panicked != spanicked {
+		return violf("behaves-unlike-fresh", "%s on buffer #%d: panicked=%v, on a freshly allocated buffer put through the same operations panicked=%v",
+			useNames[u.kind], hb.serial, panicked, spanicked)
+	}
+	b, f := hb.cur, hb.shadow
+	if b.Channels() != f.Channels() || b.Length() != f.Length() || b.Capacity() != f.Capacity() || b.Len() != f.Len() || b.Cap() != f.Cap() {
+		return violf("behaves-unlike-fresh",
+			"after %s buffer #%d has length=%d capacity=%d len=%d cap=%d; a freshly allocated buffer put through the same operations has length=%d capacity=%d len=%d cap=%d",
+			useNames[u.kind], hb.serial, b.Length(), b.Capacity(), b.Len(), b.Cap(), f.Length(), f.Capacity(), f.Len(), f.Cap())
+	}
+	if at, ok := sameSnap(snapshotFull(b), snapshotFull(f)); !ok {
+		return violf("behaves-unlike-fresh",
+			"after %s buffer #%d differs at full-capacity position %d from a freshly allocated buffer put through the same operations",
+			useNames[u.kind], hb.serial, at)
+	}
+	return nil
 }
